@@ -278,6 +278,40 @@ macro_rules! feed {
     };
 }
 
+/// Framing!Ref in Rust (used where the model predicts raw LINES and the harness needs the
+/// deliveries they imply, e.g. the Reader replay).  It is itself checked against the spec:
+/// the framing replay compares it with TLC's predicted deliveries on every enumerated file.
+pub fn framing_ref(lines: &[String]) -> (i32, Vec<(String, String)>) {
+    let kinds: Vec<Value> = lines.iter().map(|l| classify(l)).collect();
+    let k = |i: usize| gets(&kinds[i], "k").to_string();
+    let slot = (0..lines.len()).find(|&i| k(i) != "blank");
+    let mut version = 14;
+    let mut scan = lines.len();
+    if let Some(sl) = slot {
+        if k(sl) == "ver" {
+            version = geti(&kinds[sl], "v") as i32;
+            scan = sl + 1;
+        } else {
+            scan = sl;
+        }
+    }
+    let mut deliv = vec![];
+    let mut section: Option<String> = None;
+    for i in scan..lines.len() {
+        let kk = k(i);
+        if kk == "hdr" {
+            section = Some(gets(&kinds[i], "s").to_string());
+            continue;
+        }
+        if let Some(sec) = &section {
+            if kk != "blank" && kk != "comment" && kk != "icomment" {
+                deliv.push((sec.clone(), lines[i].trim_end().to_string()));
+            }
+        }
+    }
+    (version, deliv)
+}
+
 /// The reference driver: feed the predicted deliveries to the same public
 /// section parsers on a state created with the predicted version.
 pub fn reference_beatmap(version: i32, deliv: &[(String, String)]) -> Beatmap {
@@ -463,6 +497,9 @@ pub fn replay(args: &Args, s: &mut Summary) {
             let text = join_lines(&lines, crlf, fin);
             let deliv_text: Vec<(String, String)> =
                 want_deliv.iter().map(|(sec, i)| (sec.clone(), lines[*i - 1].trim_end().to_string())).collect();
+            if framing_ref(&lines) != (want_version, deliv_text.clone()) {
+                s.mismatch("harness:framing_ref!=spec", json!({"case": c, "lines": lines}));
+            }
             for enc in ENCODINGS {
                 let bytes = encode_text(&text, enc);
                 let label = format!("framing replay {} enc={enc} text={:?}", c, text);
@@ -560,7 +597,7 @@ fn check_spelling_table(s: &mut Summary) {
 
 // ---------------------------------------------------------------------------
 // impl -> spec: record what the real driver does on bundled and random files.
-fn bundled_files() -> Vec<(String, Vec<u8>)> {
+pub fn bundled_files() -> Vec<(String, Vec<u8>)> {
     let mut v = vec![];
     if let Ok(rd) = std::fs::read_dir("/repo/resources") {
         let mut names: Vec<_> = rd.filter_map(|e| e.ok()).map(|e| e.path()).collect();
